@@ -66,7 +66,7 @@ func runCheck(r *mon.Run) {
 	r.SetLevel("fault_enumeration")
 	r.SetRule("case = one stream history (scripted real HttpServer stream, client call script, fault plan round-trip-index -> fault) driven through the real HttpClient; " +
 		"exhaustive sub-space = every short shape (X1-X4 exchange, P1-P6 producer) x every round-trip position of its fault-free run x every fault of the catalogue " +
-		"(thorough: every variant of every kind at every position, a cut at every byte offset of the three dense positions and at every third offset plus every message boundary -1/0/+1/+8 elsewhere, a flip at every fourth flip-safe offset; quick: the full variant product at three dense positions - an exchange turn, a producer continuation, an init with header stream - " +
+		"(thorough: every variant of every kind at every position, a cut at every byte offset of the three dense positions and at every fifth offset plus every message boundary -1/0/+1/+8 elsewhere, a flip at every sixth flip-safe offset; quick: the full variant product at three dense positions - an exchange turn, a producer continuation, an init with header stream - " +
 		"and one variant per kind, rotated, plus cuts at and just before every message boundary at every other position) " +
 		"in the in-process transport, plus every wire-level fault (connection closed before/after the server ran with zero response bytes, cut after k raw bytes, EOF-delimited cut, chunked) " +
 		"x every position on a real listener with keep-alive connections; random longer multi-fault histories are counted separately (coverage.random_*); " +
@@ -233,7 +233,7 @@ func runCheck(r *mon.Run) {
 			case r.Thorough() && dense[fmt.Sprintf("%s:%d", sh.Shape, p)]:
 				ks = positionsFor(ti.Len, ti.Bounds, true, 0)
 			case r.Thorough():
-				ks = positionsFor(ti.Len, ti.Bounds, false, 3)
+				ks = positionsFor(ti.Len, ti.Bounds, false, 5)
 			case full:
 				ks = positionsFor(ti.Len, ti.Bounds, false, 0)
 			default:
@@ -253,13 +253,13 @@ func runCheck(r *mon.Run) {
 			switch {
 			case r.Thorough():
 				for k := 0; k < ti.Safe; k++ {
-					if k%4 == 0 {
+					if k%6 == 0 {
 						flips++
 						add(0, Fault{Kind: "flip", Var: "all", K: k})
 					}
-					if k%10 == 1 {
+					if k%15 == 1 {
 						flips++
-						add(0, Fault{Kind: "flip", Var: []string{"bit0", "bit7"}[(k/10)%2], K: k})
+						add(0, Fault{Kind: "flip", Var: []string{"bit0", "bit7"}[(k/15)%2], K: k})
 					}
 				}
 			case full:
@@ -321,8 +321,8 @@ func runCheck(r *mon.Run) {
 	r.SetExhaustive(true)
 
 	// ---- random longer histories (reported separately)
-	nRand := r.N(300, 12000)
-	nRandLis := r.N(60, 1500)
+	nRand := r.N(300, 8000)
+	nRandLis := r.N(60, 1000)
 	space = nil
 	for i := 0; i < nRand+nRandLis; i++ {
 		rng := r.Rand(uint64(i))
